@@ -22,9 +22,9 @@ LEVEL_TEXT = ('Theorems in coq/theories/Properties/C07.v for every commutative r
               'wavelength kept, Pupil hands over its focal length; _mul_pixelscale table. The model is extracted and '
               'compared with lentil on every run.')
 LEVEL_NOTE = ('Trusted: Coq kernel, extraction, harness, numpy slicing/broadcasting/np.exp (modelled, observed through the '
-              'tie; tolerance 1e-9 where an OPD is present, exact field comparison otherwise). Known findings: one-element '
-              'array fields/phasors are treated as infinite constants by Field.__mul__; a scalar mask is ignored when the '
-              'amplitude is a scalar. Theorem (c) is stated for planes whose phasors have more than one element or are 0-d.')
+              'tie; tolerance 1e-9 where an OPD is present, exact field comparison otherwise). Describes the code after '
+              'the fix: commits for C07-one-element-array-field, C07-one-layer-cube and C07-scalar-mask-ignored; theorem (c) '
+              'covers planes with an array mask (segments of any size) and all-scalar planes.')
 TRUSTED = ['Coq 8.16.1 kernel (coqc; coqchk in the thorough tier)',
            'extraction with ExtrOcamlBasic only; ocaml/driver.ml',
            'harness/props/c07.py: codec, evaluation of group-ring elements at exp(-2 pi i/L), canvas oracle',
@@ -126,17 +126,15 @@ def transmission(pl, L, r, c):
 
 
 def chain_boxes(c):
-    """extent bookkeeping of the chain by plain box arithmetic: which fields/phasors are one-element arrays,
-    which planes fall into a recorded finding class"""
-    info = {'one_element': False, 'one_layer_cube': False, 'scalar_mask_ignored': False, 'zero_mask': False,
-            'shape_mismatch': False}
+    """extent bookkeeping of the chain by plain box arithmetic: the extents of the fields a wavefront holds after
+    the chain ('const' = the 0-d plane wave), whether single-sample fields/phasors occur (a statistic), and the
+    two input classes outside the property's domain (a mask that is nowhere set; attribute shapes that differ)"""
+    info = {'single_sample': False, 'one_layer_cube': False, 'zero_mask': False, 'shape_mismatch': False}
     fields = ['const']
     for pl in c['planes']:
         g = plane_geom(pl)
         arrs = attr_arrays(pl)
         if g['segs'] is None:
-            if 's' in pl['amp'] and not g['mscalar'] and is_nz(pl['amp']['s']):
-                info['scalar_mask_ignored'] = True
             if len(set(arrs)) > 1:
                 info['shape_mismatch'] = True
             if arrs:
@@ -156,16 +154,13 @@ def chain_boxes(c):
                 if b is None:
                     info['zero_mask'] = True
                     continue
-                if n * m == 1 and 's' in pl['amp'] and 's' in pl['opd']:
-                    phs.append('const')
-                else:
-                    phs.append((b[0] - n // 2, b[1] - n // 2, b[2] - m // 2, b[3] - m // 2))
+                phs.append((b[0] - n // 2, b[1] - n // 2, b[2] - m // 2, b[3] - m // 2))
         new = []
         for f in fields:
             for p in phs:
                 for x in (f, p):
                     if x != 'const' and x[0] == x[1] and x[2] == x[3]:
-                        info['one_element'] = True
+                        info['single_sample'] = True
                 if f == 'const' and p == 'const':
                     new.append('const')
                 elif f == 'const':
@@ -197,7 +192,7 @@ def rnd_gauss(rng, zero_p=0.0):
 def rnd_support(rng, n, m, fill):
     while True:
         s = [[rng.random() < fill for _ in range(m)] for _ in range(n)]
-        if sum(map(sum, s)) >= 2:
+        if sum(map(sum, s)) >= 1:
             return s
 
 
@@ -210,8 +205,8 @@ def rnd_pix(rng):
     return [rng.choice(['1/2', '1', '1/4']), rng.choice(['1/2', '1', '1/4'])]
 
 
-def rnd_plane(rng, L, maxn, allow_findings):
-    n, m = rng.randint(2, maxn), rng.randint(2, maxn)
+def rnd_plane(rng, L, maxn):
+    n, m = rng.randint(1 if rng.random() < 0.1 else 2, maxn), rng.randint(1 if rng.random() < 0.1 else 2, maxn)
     amp_arr, opd_arr = rng.random() < 0.55, rng.random() < 0.5
     mk = rng.choice(['none', 'none', 'scalar', '2d', '2d', 'cube', 'cube', 'cube'])
     pl = {'kind': 'Plane', 'pix': None, 'focal': None, 'tilt': []}
@@ -219,8 +214,8 @@ def rnd_plane(rng, L, maxn, allow_findings):
     if amp_arr:
         zp = 0.3 if mk == 'none' else 0.1
         a = [[rnd_gauss(rng, zp) for _ in range(m)] for _ in range(n)]
-        if mk == 'none' and sum(is_nz(v) for row in a for v in row) < 2:
-            a[0][0], a[n - 1][m - 1] = [1, 0], [2, 1]
+        if mk == 'none' and sum(is_nz(v) for row in a for v in row) < 1:
+            a[n - 1][m - 1] = [2, 1]
         pl['amp'] = {'a': a}
     else:
         pl['amp'] = {'s': rng.choice(GAUSS)}
@@ -233,24 +228,20 @@ def rnd_plane(rng, L, maxn, allow_findings):
     if mk == 'none':
         pl['mask'] = None
     elif mk == 'scalar':
-        pl['mask'] = {'s': [rng.choice([1, 1, 2, -1]), 0]}
+        pl['mask'] = {'s': [rng.choice([1, 1, 2, -1, 0]), 0]}
     elif mk == '2d':
         vals = [1, 1, 1, 2, -3]
         pl['mask'] = {'a': [[[rng.choice(vals) if support[i][j] else 0, 0] for j in range(m)] for i in range(n)]}
     else:
-        k = rng.randint(2, 4)
+        k = rng.choice([1, 2, 2, 3, 3, 4])       # one layer: a segmented plane with a single segment
         for _ in range(50):
             lab = [[rng.randrange(k) if support[i][j] else -1 for j in range(m)] for i in range(n)]
             layers = [[[[1 if lab[i][j] == q else 0, 0] for j in range(m)] for i in range(n)] for q in range(k)]
             bbs = [bbox([[v[0] != 0 for v in row] for row in ly]) for ly in layers]
-            if all(b is not None for b in bbs) and (allow_findings or all((b[1] - b[0] + 1) * (b[3] - b[2] + 1) > 1 for b in bbs)):
+            if all(b is not None for b in bbs):             # single-sample segments are welcome
                 break
         else:
-            layers = [[[[1, 0] if j < m // 2 or m == 1 else [0, 0] for j in range(m)] for i in range(n)],
-                      [[[0, 0] if j < m // 2 or m == 1 else [1, 0] for j in range(m)] for i in range(n)]]
-            if m == 1:
-                layers = [[[[1, 0]] if i < n // 2 else [[0, 0]] for i in range(n)],
-                          [[[0, 0]] if i < n // 2 else [[1, 0]] for i in range(n)]]
+            layers = [[[[1, 0] for j in range(m)] for i in range(n)]]
         if rng.random() < 0.2:
             # segments may overlap (the transmission is then the multiplicity): doubly covered samples make the
             # fields of one wavefront overlap with non-zero values
@@ -269,14 +260,14 @@ def rnd_plane(rng, L, maxn, allow_findings):
     return pl, (n, m)
 
 
-def rnd_case(rng, maxn, allow_findings=False):
+def rnd_case(rng, maxn):
     L = rng.choice([1, 1, 1, 2, 3, 4, 5, 6, 8, 12])
     nplanes = rng.choice([1, 2, 2, 3, 3])
     planes = []
     shape = None
     for k in range(nplanes):
         for _ in range(20):
-            pl, sh = rnd_plane(rng, L, maxn, allow_findings)
+            pl, sh = rnd_plane(rng, L, maxn)
             if shape is None or rng.random() < 0.25 or sh == shape:
                 break
         # reuse the first array plane's shape most of the time so that fields overlap
@@ -381,18 +372,11 @@ def generate(rng, tier):
     n = 170 if tier == 'quick' else 3000
     maxn = 6 if tier == 'quick' else 8
     out = 0
-    n_find = 0
     while out < n:
-        allow = rng.random() < 0.04
-        c = rnd_case(rng, maxn, allow)
+        c = rnd_case(rng, maxn)
         info = chain_boxes(c)
         if info['shape_mismatch'] or info['zero_mask']:
             continue
-        special = info['one_element'] or info['one_layer_cube'] or info['scalar_mask_ignored']
-        if special:
-            if not allow or n_find >= 0.05 * n:
-                continue
-            n_find += 1
         out += 1
         yield c
 
@@ -423,7 +407,7 @@ def classify(c):
         g = plane_geom(pl)
         kinds.append(('A' if 'a' in pl['amp'] else 'a') + ('O' if 'a' in pl['opd'] else 'o')
                      + ('M' if g['segs'] is not None else 'm') + ('3' if g['cube'] else ''))
-    return f'L{"1" if c["L"] == 1 else ">1"}/' + '-'.join(kinds)
+    return f'L{"1" if c["L"] == 1 else ">1"}/' + '-'.join(kinds) + ('/1px' if chain_boxes(c)['single_sample'] else '')
 
 
 def nontrivial(c):
@@ -895,38 +879,3 @@ def oracle(c, impl):
                 if not close(got['arr'][i][j], val, max(ti, 1e-12)):
                     return f'insert[{i},{j}] = {got["arr"][i][j]}, expected out + weight*intensity = {val}'
     return None
-
-
-# ------------------------------------------------------------------ known findings
-def known_match(f, c, impl):
-    if c.get('op') != 'chain':
-        return False
-    info = chain_boxes(c)
-    if f['id'].endswith('one-element-array-field'):
-        return info['one_element']
-    if f['id'].endswith('scalar-mask-ignored'):
-        return info['scalar_mask_ignored']
-    if f['id'].endswith('one-layer-cube'):
-        return info['one_layer_cube']
-    return False
-
-
-def replay_known(f):
-    lentil = C.import_lentil()
-    if f['id'] == 'C07-one-element-array-field':
-        m1 = np.zeros((5, 5)); m1[0:3, 0:3] = 1
-        m2 = np.zeros((5, 5)); m2[2:5, 2:5] = 1
-        w = lentil.Wavefront(1e-6) * lentil.Plane(amplitude=m1) * lentil.Plane(amplitude=m2)
-        w = w * lentil.Plane(amplitude=2 * np.ones((5, 5)))
-        return bool(np.count_nonzero(w.field) > 1)
-    if f['id'] == 'C07-scalar-mask-ignored':
-        w = lentil.Wavefront(1e-6) * lentil.Plane(amplitude=2, mask=0)
-        return bool(np.asarray(w.field) != 0)
-    if f['id'].endswith('one-layer-cube'):
-        m = np.zeros((1, 4, 4)); m[0, 1:3, 0:3] = 1
-        try:
-            lentil.Wavefront(1e-6) * lentil.Plane(amplitude=np.ones((4, 4)), mask=m)
-        except ValueError:
-            return True
-        return False
-    return False
